@@ -573,18 +573,31 @@ class IrToWasmCompiler:
         "U64TOI32": ["i32.wrap_i64"],
         "I64TOI32": ["i32.wrap_i64"],
         # Store u32 in i64 type:
-        "I32TOU32": ["i64.extend_i32_s"],
+        "I32TOU32": ["i64.extend_i32_u"],
         "U32TOI32": ["i32.wrap_i64"],
         # 32 --- 8
         "U32TOI8": ["i32.wrap_i64"],
-        "I8TOU32": ["i64.extend_i32_s"],
+        "I8TOU32": ["i64.extend_i32_u"],
         "U32TOU8": ["i32.wrap_i64"],
         "U8TOU32": ["i64.extend_i32_u"],
         # 32 --- 16
         "U32TOI16": ["i32.wrap_i64"],
-        "I16TOU32": ["i64.extend_i32_s"],
+        "I16TOU32": ["i64.extend_i32_u"],
         "U32TOU16": ["i32.wrap_i64"],
         "U16TOU32": ["i64.extend_i32_u"],
+    }
+
+    # Casts whose result always fits the destination type:
+    widening_casts = {
+        "I8TOI32",
+        "U8TOI32",
+        "I16TOI32",
+        "U16TOI32",
+        "I8TOU32",
+        "U8TOU32",
+        "I16TOU32",
+        "U16TOU32",
+        "I32TOU32",
     }
 
     reg_operators = {
@@ -635,6 +648,8 @@ class IrToWasmCompiler:
             opcode = self.binop_map[tree.name]
             self.stack -= 1
             self.emit(opcode)
+            if tree.name[:3] in ("ADD", "SUB", "MUL", "SHL"):
+                self.emit_wrap(tree.name[3:])
         elif tree.name in self.mov_operators:
             self.do_tree(tree[0])
             self.emit("local.set", self.get_value(tree.value))
@@ -646,6 +661,7 @@ class IrToWasmCompiler:
             self.emit("i32.const", 0)
             self.do_tree(tree[0])
             self.emit("i32.sub")
+            self.emit_wrap(tree.name[3:])
         elif tree.name == "NEGI64":
             self.emit("i64.const", 0)
             self.do_tree(tree[0])
@@ -697,11 +713,15 @@ class IrToWasmCompiler:
             self.stack += 1
         elif tree.name in self.cast_operators:
             self.do_tree(tree[0])
+            if tree.name not in self.widening_casts:
+                self.emit_wrap(tree.name.split("TO")[1])
         elif tree.name in self.cast_operators2:
             self.do_tree(tree[0])
             opcodes = self.cast_operators2[tree.name]
             for opcode in opcodes:
                 self.emit(opcode)
+            if tree.name not in self.widening_casts:
+                self.emit_wrap(tree.name.split("TO")[1])
         elif tree.name == "CALL":
             function_name, argv, rv = tree.value
             for _, argument in argv:
@@ -749,6 +769,33 @@ class IrToWasmCompiler:
             # Jump is handled by shapes!
         else:  # pragma: no cover
             raise NotImplementedError(str(tree))
+
+    def emit_wrap(self, ty_name):
+        """Reduce the value on top of the stack to the given ir type.
+
+        Integer types narrower than the wasm type that holds them
+        (i8, u8, i16 and u16 in an i32, u32 in an i64) must wrap around
+        at their own width.
+        """
+        if ty_name == "I8":
+            self.emit("i32.const", 24)
+            self.emit("i32.shl")
+            self.emit("i32.const", 24)
+            self.emit("i32.shr_s")
+        elif ty_name == "I16":
+            self.emit("i32.const", 16)
+            self.emit("i32.shl")
+            self.emit("i32.const", 16)
+            self.emit("i32.shr_s")
+        elif ty_name == "U8":
+            self.emit("i32.const", 0xFF)
+            self.emit("i32.and")
+        elif ty_name == "U16":
+            self.emit("i32.const", 0xFFFF)
+            self.emit("i32.and")
+        elif ty_name == "U32":
+            self.emit("i64.const", 0xFFFFFFFF)
+            self.emit("i64.and")
 
     def get_ty(self, ir_ty):
         """Get the right wasm type for an ir type"""
